@@ -17,6 +17,36 @@ from pycfmodel.resolver import _extended_bool, resolve
 AllResourcesType = Annotated[Union[ResourceModels, GenericResource], Field(union_mode="left_to_right")]
 
 
+def _condition_references(value: Any) -> set:
+    """Names of the conditions referenced by a condition definition."""
+    references = set()
+    pending = [value]
+    while pending:
+        current = pending.pop()
+        if isinstance(current, dict):
+            if len(current) == 1 and isinstance(current.get("Condition"), str):
+                references.add(current["Condition"])
+            if_body = current.get("Fn::If") if len(current) == 1 else None
+            if isinstance(if_body, list) and if_body and isinstance(if_body[0], str):
+                references.add(if_body[0])
+            pending.extend(current.values())
+        elif isinstance(current, list):
+            pending.extend(current)
+    return references
+
+
+def _reachable_from(start: str, references: Dict[str, set]) -> set:
+    """Names reachable from `start` by following one or more references."""
+    reachable = set()
+    pending = list(references[start])
+    while pending:
+        current = pending.pop()
+        if current not in reachable:
+            reachable.add(current)
+            pending.extend(references[current])
+    return reachable
+
+
 class CFModel(CustomModel):
     """
     Template that describes AWS infrastructure.
@@ -83,11 +113,21 @@ class CFModel(CustomModel):
         dict_value = self.model_dump()
 
         conditions = dict_value.pop("Conditions", {})
-        resolved_conditions = {}
-        for key, value in conditions.items():
-            resolved_conditions.update(
-                {key: _extended_bool(resolve(value, extended_parameters, self.Mappings, resolved_conditions))}
-            )
+        # A condition is resolved after the conditions it references, whatever the declaration order.
+        # References to undeclared conditions, or to conditions that are part of a reference cycle, are False.
+        references = {key: _condition_references(value) & conditions.keys() for key, value in conditions.items()}
+        cyclic = {key for key in conditions if key in _reachable_from(key, references)}
+        condition_values = {}
+
+        def condition_value(key):
+            if key not in condition_values:
+                visible = {ref: condition_value(ref) for ref in references[key] if ref not in cyclic}
+                condition_values[key] = _extended_bool(
+                    resolve(conditions[key], extended_parameters, self.Mappings, visible)
+                )
+            return condition_values[key]
+
+        resolved_conditions = {key: condition_value(key) for key in conditions}
 
         resources = dict_value.pop("Resources")
         resolved_resources = {
